@@ -13,6 +13,8 @@ pub enum Task {
     /// key of keygen from the same seed, query the lifetime
     SignAt { hid: Hid, params: Vec<Param>, seed: String, counter: u64, msg: String, entry: Entry, aux_len: Option<usize> },
     Verify { hid: Hid, msg: String, sig: String, pk: String },
+    /// lifetime query only (trees too tall to generate): crafted blob, no tree is computed
+    Lifetime { hid: Hid, params: Vec<Param>, seed: String, counter: u64 },
     /// fast_verify builds only: hbs_lms::sign_mut
     SignMut { hid: Hid, params: Vec<Param>, seed: String, counter: u64, msg: String, reject: bool, aux: bool },
 }
@@ -85,6 +87,16 @@ pub fn run_task(t: &Task) -> Value {
             let verdicts: Vec<String> = ALL_VENTRIES.iter().map(|e| cls(&lib_api::verify(*hid, &msg, &sig, &pk, *e))).collect();
             json!({"verify": verdicts})
         }
+        Task::Lifetime { hid, params, seed, counter } => {
+            let m = Model::new(*hid);
+            let blob = m.make_blob(*counter, params, &hex::decode(seed).unwrap_or_default());
+            let life = lib_api::lifetime(*hid, &blob);
+            let life_s = match &life {
+                Res::Ok(l) => format!("ok:{}", l),
+                other => cls(other),
+            };
+            json!({"res": cls(&life), "lifetime": life_s})
+        }
         Task::SignMut { hid, params, seed, counter, msg, reject, aux } => sign_mut_task(*hid, params, seed, *counter, msg, *reject, *aux),
     }
 }
@@ -102,6 +114,7 @@ fn sign_mut_task(hid: Hid, params: &[Param], seed: &str, counter: u64, msg: &str
     let mut msg = hex::decode(msg).unwrap_or_default();
     let before = msg.clone();
     let blob = m.make_blob(counter, params, &seed);
+    let blob_same = blob.clone();
     let mut cb_args: Vec<Vec<u8>> = vec![];
     let mut auxbuf = if aux { Some(m.aux_build(params, &seed, 1 << 16)) } else { None };
     let mut iterations: u32 = 0;
@@ -134,11 +147,18 @@ fn sign_mut_task(hid: Hid, params: &[Param], seed: &str, counter: u64, msg: &str
         Res::Ok(o) => o.pk,
         _ => vec![],
     };
-    // the same key/message through the ordinary signer, for comparison of the leaf accounting
+    // the same key bytes and the RETURNED message through the ordinary signer: signing is a function of
+    // (hash, key bytes, message), whatever the entry point
+    let same = lib_api::sign(hid, &blob_same, &msg, Cb::Accept, None, Entry::Bytes);
+    let sign_same = match &same.res {
+        Res::Ok(s) => hex::encode(s),
+        other => cls(other),
+    };
+    let succ_same = same.cb_args.last().map(hex::encode).unwrap_or_default();
     match &res {
         Res::Ok(sig) => {
             let verdicts: Vec<String> = ALL_VENTRIES.iter().map(|e| cls(&lib_api::verify(hid, &msg, sig, &pk, *e))).collect();
-            json!({"res": c, "sig": hex::encode(sig), "msg_after": hex::encode(&msg), "msg_before": hex::encode(&before), "cb": cb_args.iter().map(hex::encode).collect::<Vec<_>>(), "verify": verdicts, "pk": hex::encode(&pk), "hash_iterations": iterations})
+            json!({"res": c, "sig": hex::encode(sig), "msg_after": hex::encode(&msg), "msg_before": hex::encode(&before), "cb": cb_args.iter().map(hex::encode).collect::<Vec<_>>(), "verify": verdicts, "pk": hex::encode(&pk), "hash_iterations": iterations, "sign_same": sign_same, "succ_same": succ_same})
         }
         _ => json!({"res": c, "msg_after": hex::encode(&msg), "msg_before": hex::encode(&before), "cb": cb_args.iter().map(hex::encode).collect::<Vec<_>>(), "pk": hex::encode(&pk)}),
     }
